@@ -541,15 +541,21 @@ impl PersistBackend for FilePersist {
             .collect();
         consolidate(&mut filtered);
 
+        // Step 1: Write new compacted batch FIRST (crash-safe ordering)
+        // If we crash or fail here, old batches still exist and metadata - on disk and in
+        // memory - still points to them.
+        let new_batch = if filtered.is_empty() {
+            None
+        } else {
+            let batch = Batch::new(filtered.clone());
+            let (batch_id, path) = self.write_batch(&filtered)?;
+            Some((batch, batch_id, path))
+        };
+
         // Remember old batch refs for cleanup after the new batch is durable
         let old_batches: Vec<BatchRef> = state.meta.batches.drain(..).collect();
 
-        // Step 1: Write new compacted batch FIRST (crash-safe ordering)
-        // If we crash here, old batches still exist and metadata still points to them.
-        if !filtered.is_empty() {
-            let batch = Batch::new(filtered.clone());
-            let (batch_id, path) = self.write_batch(&filtered)?;
-
+        if let Some((batch, batch_id, path)) = new_batch {
             state.meta.add_batch(BatchRef {
                 id: batch_id,
                 path,
